@@ -376,6 +376,60 @@ let loop_main unfixed =
           | _ -> print_endline "PANIC")
       | _ -> failwith ("bad loop op: " ^ line))
 
+(* ---------------------------------------------------------------- keep-alive mode (M-KEEPALIVE)
+   `driver ka [unfixed]`: the scenario lines of harness/src/bin/clientloop.rs (KA / KACONN).  The
+   scripted broker (reply delays, silence, traffic) is replayed here as the event list the Coq
+   model consumes: Tick at each timer deadline (prompt polling), PingResp at each reply, Other for
+   the traffic.  At equal instants the timer goes first (what the real loop does when the reply is
+   produced in that same instant; a reply already waiting races with it: see comp_client). *)
+let ka_main unfixed =
+  iter_lines (fun line ->
+      match split_ws line with
+      | [] -> ()
+      | "KA" :: ver :: ka_ms :: delays :: silent :: traffic :: period :: horizon :: rest ->
+          let v5 = String.length ver > 0 && ver.[0] = '5' in
+          let ka = match rest with [ ska ] when v5 -> int_of_string ska * 1000 | _ -> int_of_string ka_ms in
+          let stp = if v5 && unfixed then k_step_v5_orig else k_step in
+          let delays = Array.of_list (List.map int_of_string (String.split_on_char ',' delays)) in
+          let silent = int_of_string silent and period = int_of_string period and horizon = int_of_string horizon in
+          let kan = n_of_int ka in
+          let s = ref (fst (stp kan k_init (Connect (n_of_int 0)))) in
+          let pings = ref [] and resps = ref [] and due = ref [] and k = ref 0 in
+          let next_tr = ref (if traffic = "none" then max_int else period) in
+          let fin = ref None in
+          while !fin = None do
+            let d = match k_deadline !s with Some d -> int_of_n d | None -> max_int in
+            let r = match !due with x :: _ -> x | [] -> max_int in
+            let t = min d (min r !next_tr) in
+            if t > horizon then fin := Some (Printf.sprintf "HORIZON@%d" horizon)
+            else if t = d then begin
+              let s', outs = stp kan !s (Tick (n_of_int t)) in
+              s := s';
+              List.iter (function
+                | PingReqAt x ->
+                    pings := int_of_n x :: !pings; incr k;
+                    if silent = 0 || !k < silent then due := !due @ [ int_of_n x + delays.((!k - 1) mod Array.length delays) ]
+                | ErrAwait x -> fin := Some (Printf.sprintf "ERROR AwaitPingResp@%d" (int_of_n x))
+                | ErrCollision x -> fin := Some (Printf.sprintf "ERROR CollisionTimeout@%d" (int_of_n x))) outs
+            end
+            else if t = r then begin
+              due := List.tl !due; resps := t :: !resps;
+              s := fst (stp kan !s (PingResp (n_of_int t)))
+            end
+            else begin
+              next_tr := !next_tr + period;
+              s := fst (stp kan !s (Other (n_of_int t)))
+            end
+          done;
+          let f l = String.concat " " (List.rev_map string_of_int l) in
+          Printf.printf "KA C@0 PINGS[%s] RESPS[%s] END %s\n" (f !pings) (f !resps) (match !fin with Some x -> x | None -> "?")
+      | [ "KACONN"; _; tm; h ] ->
+          let h = if h = "never" then None else Some (n h) in
+          (match k_poll_connect (n_of_int (int_of_string tm * 1000)) h with
+           | Connected x -> Printf.printf "KACONN CONNECTED@%d\n" (int_of_n x)
+           | NetworkTimeout x -> Printf.printf "KACONN ERROR NetworkTimeout@%d\n" (int_of_n x))
+      | _ -> failwith ("bad ka op: " ^ line))
+
 let main () =
   let st = ref Dead in
   iter_lines (fun line ->
@@ -406,5 +460,6 @@ let main () =
 
 let () =
   if Array.length Sys.argv > 2 && Sys.argv.(1) = "known" then known Sys.argv.(2)
+  else if Array.length Sys.argv > 1 && Sys.argv.(1) = "ka" then ka_main (Array.length Sys.argv > 2 && Sys.argv.(2) = "unfixed")
   else if Array.length Sys.argv > 1 && Sys.argv.(1) = "loop" then loop_main (Array.length Sys.argv > 2 && Sys.argv.(2) = "unfixed")
   else main ()
